@@ -282,6 +282,11 @@ pub fn run(id: &str, tier: Tier, seed: u64) -> Report {
         if rep.failed() {
             return rep;
         }
+        // ... and when the storage was slow to take the accepted version
+        crate::props::conc::slow_lock_subrun(&mut rep, tier);
+        if rep.failed() {
+            return rep;
+        }
     }
 
     if id == "C07" {
@@ -349,6 +354,39 @@ pub fn run(id: &str, tier: Tier, seed: u64) -> Report {
         }
     }
 
+    if id == "C02" {
+        // many clients through one long-lived server that may hold only a few hundred file
+        // descriptors (an ordinary service limit is 1024; here: what is open plus 150): every
+        // client's first AddVersion and the next on its latest must be accepted, whatever the
+        // number of clients served before
+        let mut cases = vec![];
+        for (backend, via, n) in [(Backend::Sqlite, Via::Lib, 230u8), (Backend::Sqlite, Via::Http, 200), (Backend::Mem, Via::Lib, 230)] {
+            let mut ops = vec![];
+            for c in 0..n {
+                ops.push(Op::AddVersion { c, parent: if c % 3 == 0 { IdRef::Fresh(100) } else { IdRef::Nil }, data: d(c as u32) });
+                ops.push(Op::AddVersion { c, parent: IdRef::Latest(c), data: d(1000 + c as u32) });
+                if c % 5 == 1 {
+                    ops.push(Op::AddVersion { c, parent: IdRef::Ancestor(c, 1), data: d(2000 + c as u32) });
+                    ops.push(Op::AddSnapshot { c, version: IdRef::Latest(c), data: d(3000 + c as u32) });
+                }
+                if c % 7 == 2 && c > 0 {
+                    ops.push(Op::AddVersion { c: c / 2, parent: IdRef::Latest(c / 2), data: d(4000 + c as u32) });
+                }
+            }
+            for c in [0u8, 1, n / 2, n - 1] {
+                ops.push(Op::AddVersion { c, parent: IdRef::Latest(c), data: d(5000 + c as u32) });
+                ops.push(Op::GetChild { c, parent: IdRef::Base(c) });
+            }
+            cases.push(HCase { backend, via, case: Case { cfg: Cfg { snapshot_days: 14, snapshot_versions: 100 }, salt: 2, nclients: n, ops } });
+        }
+        let mut r = engine::enumerate(id, "few-descriptors", cases, |hc, st| with_few_descriptors(|| check(id, hc, st)));
+        r.exhaustive = false;
+        rep.absorb("many-clients-few-descriptors", r);
+        if rep.failed() {
+            return rep;
+        }
+    }
+
     if id == "C18" {
         // "any refused request": the request grammar of C15/C20 with C18's own oracle
         crate::props::http::c18_raw_subrun(&mut rep, tier, seed);
@@ -368,12 +406,35 @@ pub fn run(id: &str, tier: Tier, seed: u64) -> Report {
     rep
 }
 
+/// Run `f` with the soft limit on open file descriptors lowered to what this process has open
+/// now plus 150; restored afterwards.
+fn with_few_descriptors<T>(f: impl FnOnce() -> T) -> T {
+    let open = std::fs::read_dir("/proc/self/fd").map(|d| d.count()).unwrap_or(64) as u64;
+    let mut old = libc::rlimit { rlim_cur: 0, rlim_max: 0 };
+    // SAFETY: plain libc calls on a local struct
+    let have = unsafe { libc::getrlimit(libc::RLIMIT_NOFILE, &mut old) } == 0;
+    if have {
+        let want = libc::rlimit { rlim_cur: (open + 150).min(old.rlim_max), rlim_max: old.rlim_max };
+        unsafe { libc::setrlimit(libc::RLIMIT_NOFILE, &want) };
+    }
+    let out = f();
+    if have {
+        unsafe { libc::setrlimit(libc::RLIMIT_NOFILE, &old) };
+    }
+    out
+}
+
 pub fn replay(id: &str, kind: &str, case: &Value, st: &mut Stats) -> CheckResult {
     match kind {
+        "few-descriptors" => {
+            let hc: HCase = serde_json::from_value(case.clone()).map_err(|e| Fail::Inconclusive(format!("bad replay file: {e}")))?;
+            with_few_descriptors(|| check(id, &hc, st))
+        }
         "history" => {
             let hc: HCase = serde_json::from_value(case.clone()).map_err(|e| Fail::Inconclusive(format!("bad replay file: {e}")))?;
             check(id, &hc, st)
         }
+        "slow-lock" if id == "C01" => crate::props::conc::slow_lock_replay(case, st),
         "overlap" if id == "C11" => crate::props::conc::c11_replay(case, st),
         "overlap" if id == "C01" || id == "C07" => crate::props::conc::c01_replay(case, st),
         "raw" if id == "C18" => crate::props::http::c18_raw_replay(case, st),
